@@ -82,6 +82,10 @@ fn mkimage(img_typ: &DiskImageType,kind: &DiskKind,maybe_vol: Option<&String>,ma
         (DiskImageType::DOT2MG,names::A2_HD_MAX) => img::dot2mg::Dot2mg::create(vol,*kind,maybe_wrap),
         (DiskImageType::NIB,names::A2_DOS32_KIND) => Ok(Box::new(img::nib::Nib::create(vol,*kind))),
         (DiskImageType::NIB,names::A2_DOS33_KIND) => Ok(Box::new(img::nib::Nib::create(vol,*kind))),
+        (DiskImageType::IMD | DiskImageType::TD0,DiskKind::D35(names::IBM_2880)) => {
+            error!("this image type cannot hold the data rate of a 2.88M disk");
+            Err(Box::new(CommandError::UnsupportedItemType))
+        },
         (DiskImageType::IMD,cpm_patterns!()) => Ok(Box::new(img::imd::Imd::create(*kind))),
         (DiskImageType::TD0,cpm_patterns!()) => Ok(Box::new(img::td0::Td0::create(*kind))),
         (DiskImageType::IMD,ibm_patterns!()) => Ok(Box::new(img::imd::Imd::create(*kind))),
@@ -117,7 +121,7 @@ fn mkdos3x(vol: Option<&String>,boot: bool,img: Box<dyn DiskImage>) -> Result<Ve
         return Err(Box::new(CommandError::InvalidCommand));
     }
     match u8::from_str_radix(vol.unwrap(), 10) {
-        Ok(v) if v>=1 || v<=254 => {
+        Ok(v) if v>=1 && v<=254 => {
             if boot && v!=254 {
                 error!("we can only add the boot tracks if volume number is 254");
                 return Err(Box::new(CommandError::UnsupportedItemType));
@@ -195,6 +199,13 @@ fn mkcpm(vol: Option<&String>,boot: bool,kind: &DiskKind,img: Box<dyn DiskImage>
         2 => ("",None,[2,2,3]),
         _ => panic!("unexpected CP/M version")
     };
+    match *kind {
+        names::A2_DOS33_KIND | cpm_patterns!() => {},
+        _ => {
+            error!("no CP/M disk parameter block is known for this kind of disk");
+            return Err(Box::new(CommandError::UnsupportedFormat));
+        }
+    }
     let mut disk = cpm::Disk::from_img(img,dpb::DiskParameterBlock::create(&kind),cpm_vers)?;
     disk.format(vol_name,time)?;
     Ok(disk.get_img().to_bytes())
